@@ -1,5 +1,8 @@
-(* C14 -- executable model of the forward pass of reparameterize_spline
-   (/repo/include/smooth/spline/detail/reparameterize_impl.hpp:115-166)
+(* C14 -- executable model of reparameterize_spline
+   (/repo/include/smooth/spline/detail/reparameterize_impl.hpp):
+   the forward pass (:119-170), the rows of the linear program the backward
+   pass hands to lp2d::solve at every grid point (:85-110; lp2d itself is
+   external code and not modelled),
    and of the Spline<2,double> segments it emits
    (/repo/include/smooth/spline/detail/spline_impl.hpp:52-66, :153-181, :231-269).
 
@@ -14,10 +17,10 @@ Open Scope Q_scope.
 (* reparameterize_impl.hpp:36   static constexpr auto eps = 1e-8; *)
 Definition eps : Q := 1 # 100000000.
 
-(* the double i in  s0 + ds * i  (:124) *)
+(* the double i in  s0 + ds * i  (:128) *)
 Definition idxQ (i : nat) : Q := inject_Z (Z.of_nat i).
 
-(* One Spline<2,double>{dt, Vector2d{v1, v2}, si} segment (:152-156):
+(* One Spline<2,double>{dt, Vector2d{v1, v2}, si} segment (:156-160):
    duration g_dt, cumulative Bernstein coefficients g_v1 g_v2, start g_g0 *)
 Record rseg := { g_dt : Q; g_v1 : Q; g_v2 : Q; g_g0 : Q }.
 
@@ -36,7 +39,7 @@ Definition omin (a : option Q) (b : Q) : option Q :=
   | Some x => Some (Qmin x b)
   end.
 
-(* :135   double local_ret = (v2max(i + 1) - vi2) / (2 * ds);
+(* :139   double local_ret = (v2max(i + 1) - vi2) / (2 * ds);
    (+inf when v2max(i+1) = +inf; ds > 0 is understood) *)
 Definition acc_init (v2next : option Q) (vi2 ds : Q) : option Q :=
   match v2next with
@@ -44,30 +47,30 @@ Definition acc_init (v2next : option Q) (vi2 ds : Q) : option Q :=
   | Some y => Some ((y - vi2) / (2 * ds))
   end.
 
-(* :136-144  loop over the degrees of freedom j; dof = list of (vel_j, acc_j) *)
+(* :140-148  loop over the degrees of freedom j; dof = list of (vel_j, acc_j) *)
 Fixpoint acc_dofs (vi2 : Q) (dof : list (Q * Q)) (amin amax : list Q)
   (r : option Q) : option Q :=
   match dof, amin, amax with
   | (vel, acc) :: dof', lo :: amin', hi :: amax' =>
       let r' :=
-        if Qlt_le_dec eps vel then omin r ((hi - acc * vi2) / vel)            (* :139-140 *)
-        else if Qlt_le_dec vel (- eps) then omin r ((lo - acc * vi2) / vel)   (* :141-142 *)
+        if Qlt_le_dec eps vel then omin r ((hi - acc * vi2) / vel)            (* :143-144 *)
+        else if Qlt_le_dec vel (- eps) then omin r ((lo - acc * vi2) / vel)   (* :145-146 *)
         else r in
       acc_dofs vi2 dof' amin' amax' r'
   | _, _, _ => r
   end.
 
-(* :134-146  the lambda computing ai; None = +inf *)
+(* :138-150  the lambda computing ai; None = +inf *)
 Definition acc_bound (ds : Q) (v2max : list (option Q)) (dofs : list (list (Q * Q)))
   (amin amax : list Q) (i : nat) (vi2 : Q) : option Q :=
   acc_dofs vi2 (nth i dofs []) amin amax
            (acc_init (nth (S i) v2max None) vi2 ds).
 
-(* everything that happens in one loop iteration i (:123-161) *)
+(* everything that happens in one loop iteration i (:127-165) *)
 Record rstep := {
   t_i : nat;               (* loop index *)
-  t_vi2 : Q;               (* vi2 = v2m on entry (:130) *)
-  t_ai : option Q;         (* ai, None = +inf (:134) *)
+  t_vi2 : Q;               (* vi2 = v2m on entry (:134) *)
+  t_ai : option Q;         (* ai, None = +inf (:138) *)
   t_seg : option rseg;     (* the segment passed to concat_global, if any *)
   t_v2out : Q;             (* v2m on exit *)
   t_rads : list Q          (* arguments of std::sqrt in this iteration, in order *)
@@ -77,25 +80,25 @@ Section Reparam.
   Variable sq : Q -> Q.    (* std::sqrt *)
 
   Definition fwd_step (s0 ds : Q) (i : nat) (vi2 : Q) (ai : option Q) : rstep :=
-    let vi := sq vi2 in                                              (* :131 *)
+    let vi := sq vi2 in                                              (* :135 *)
     match ai with
-    | None =>                                                        (* :148 ai == inf *)
+    | None =>                                                        (* :152 ai == inf *)
         {| t_i := i; t_vi2 := vi2; t_ai := None; t_seg := None;
            t_v2out := vi2; t_rads := [vi2] |}
     | Some a =>
-        let rad := Qmax eps (vi2 + 2 * ds * a) in                    (* :149 *)
-        let small := Qlt_le_dec (Qabs a) eps in                      (* :149 *)
-        let dt := if small then ds / vi else (- vi + sq rad) / a in  (* :149 *)
+        let rad := Qmax eps (vi2 + 2 * ds * a) in                    (* :153 *)
+        let small := Qlt_le_dec (Qabs a) eps in                      (* :153 *)
+        let dt := if small then ds / vi else (- vi + sq rad) / a in  (* :153 *)
         {| t_i := i; t_vi2 := vi2; t_ai := Some a;
-           t_seg := Some {| g_dt := dt;                              (* :152-156 *)
+           t_seg := Some {| g_dt := dt;                              (* :156-160 *)
                             g_v1 := dt * vi / 2;
                             g_v2 := dt * (dt * a + vi) / 2;
-                            g_g0 := s0 + ds * idxQ i |};             (* :124 si *)
-           t_v2out := Qmax eps (vi2 + 2 * a * ds);                   (* :159 *)
+                            g_g0 := s0 + ds * idxQ i |};             (* :128 si *)
+           t_v2out := Qmax eps (vi2 + 2 * a * ds);                   (* :163 *)
            t_rads := if small then [vi2] else [vi2; rad] |}
     end.
 
-  (* :123  for i in iota(0, N): k = iterations left, i = current index *)
+  (* :127  for i in iota(0, N): k = iterations left, i = current index *)
   Fixpoint fwd_loop (s0 ds : Q) (v2max : list (option Q)) (dofs : list (list (Q * Q)))
     (amin amax : list Q) (k i : nat) (v2m : Q) : list rstep :=
     match k with
@@ -106,7 +109,7 @@ Section Reparam.
     end.
 End Reparam.
 
-(* :121   double v2m = std::min(start_vel * start_vel, v2max(0)); *)
+(* :125   double v2m = std::min(start_vel * start_vel, v2max(0)); *)
 Definition init_v2m (start_vel : Q) (v2max : list (option Q)) : Q :=
   match nth 0%nat v2max None with
   | None => start_vel * start_vel
@@ -133,7 +136,7 @@ Fixpoint rads_of (l : list rstep) : list Q :=
 (* r_steps: full per-iteration trace; r_segs: segments of the returned spline
    in order (segment k+1 starts at its own g_g0: concat_global,
    spline_impl.hpp:163, sets the end value of segment k to it);
-   r_end: the end value of the last segment after :164
+   r_end: the end value of the last segment after :168
    ret.concat_global(Spline<2,double>(spline.t_max()));
    r_rads: every argument std::sqrt was applied to, in order. *)
 Record rres := {
@@ -150,5 +153,67 @@ Definition reparam (sq : Q -> Q) (s0 ds : Q) (n : nat) (start_vel : Q)
     fwd_loop sq s0 ds v2max dofs amin amax n 0%nat (init_v2m start_vel v2max) in
   {| r_steps := steps;
      r_segs := segs_of steps;
-     r_end := tmax;                                                  (* :164 *)
+     r_end := tmax;                                                  (* :168 *)
      r_rads := rads_of steps |}.
+
+(* ------------------------------------------------------------------ *)
+(* The linear program of the backward pass (:75-110), in (y, a) = (squared
+   velocity at s_i, acceleration on [s_i, s_{i+1}]):   max y   subject to
+   the rows below.  A row {c0, c1, b} stands for  c0 * y + c1 * a <= b
+   (lp2d::solve, external/lp2d.hpp:45-59); b = None is +inf (row [1] when
+   v2max(i+1) = inf), which constrains nothing.
+   std::array<std::array<double, 3>, 2 + 3 * Dof<G>> ineq  (:85).        *)
+
+Definition lprow := (Q * Q * option Q)%type.
+
+(* constraints [2]  (:91-99), dof = list of (vel_j, acc_j) *)
+Fixpoint rows_vel (dof : list (Q * Q)) (vmin vmax : list Q) : list lprow :=
+  match dof, vmin, vmax with
+  | (vel, _) :: dof', lo :: vmin', hi :: vmax' =>
+      (if Qlt_le_dec eps vel then (vel * vel, 0, Some (hi * hi))             (* :92-93 *)
+       else if Qlt_le_dec vel (- eps) then (vel * vel, 0, Some (lo * lo))    (* :94-95 *)
+       else (0, 0, Some 0))                                                  (* :96-97 fill(0) *)
+      :: rows_vel dof' vmin' vmax'
+  | _, _, _ => []
+  end.
+
+(* constraints [3], upper halves  (:103)  ineq[1 + Dof + j] = {acc(j), vel(j), acc_max(j)} *)
+Fixpoint rows_acc_hi (dof : list (Q * Q)) (amax : list Q) : list lprow :=
+  match dof, amax with
+  | (vel, acc) :: dof', hi :: amax' => (acc, vel, Some hi) :: rows_acc_hi dof' amax'
+  | _, _ => []
+  end.
+
+(* constraints [3], lower halves  (:104)  ineq[1 + 2 Dof + j] = {-acc(j), -vel(j), -acc_min(j)} *)
+Fixpoint rows_acc_lo (dof : list (Q * Q)) (amin : list Q) : list lprow :=
+  match dof, amin with
+  | (vel, acc) :: dof', lo :: amin' => (- acc, - vel, Some (- lo)) :: rows_acc_lo dof' amin'
+  | _, _ => []
+  end.
+
+(* all rows in array order; ynext = v2max(i + 1) *)
+Definition bwd_rows (ds : Q) (ynext : option Q) (dof : list (Q * Q))
+  (vmin vmax amin amax : list Q) : list lprow :=
+  (1, 2 * ds, ynext)                                            (* [1]  :88  *)
+  :: rows_vel dof vmin vmax                                     (* [2]  :91-99 *)
+  ++ rows_acc_hi dof amax ++ rows_acc_lo dof amin               (* [3]  :102-105 *)
+  ++ [(- (1), - (2 * ds), Some 0)].                             (* [4]  :108 (commit 80e48c1) *)
+
+(* executable feasibility test of one row / all rows at (y, a) *)
+Definition row_ok (y a : Q) (r : lprow) : bool :=
+  match r with
+  | (c0, c1, Some b) => Qle_bool (c0 * y + c1 * a) b
+  | (_, _, None) => true
+  end.
+Definition rows_ok (rows : list lprow) (y a : Q) : bool := forallb (row_ok y a) rows.
+
+(* :112-116   v2max(i) = v2opt  if Optimal,  inf  if DualInfeasible.  The third
+   status (PrimaryInfeasible) leaves v2max(i) unassigned in the code; the model
+   gives it no value either (None of the outer option). *)
+Inductive lpstatus := LpOptimal | LpPrimaryInfeasible | LpDualInfeasible.
+Definition v2max_of_lp (st : lpstatus) (v2opt : Q) : option (option Q) :=
+  match st with
+  | LpOptimal => Some (Some v2opt)
+  | LpDualInfeasible => Some None
+  | LpPrimaryInfeasible => None
+  end.
